@@ -50,7 +50,7 @@ var c20Sizes = []int64{0, 1, 1 << 31, math.MaxInt64, -1, 1234567}
 var c20Status = []int{100, 200, 204, 301, 404, 499, 500, 599, 0, 999}
 var c20Remotes = []string{"1.2.3.4:5", "[::1]:80", "", "10.0.0.1:65535"}
 var c20Upstreams = []string{"h:80", "h", "[::1]:80", "", "upstream.example.com:8443", "[::1]", "10.0.0.1"}
-var c20Hdrs = []http.Header{nil, {"Referer": {"http://a/$b?c=$d"}, "User-Agent": {"ünï/1.0 (x; y)"}}, {"X-Foo": {"a", "b"}, "User-Agent": {""}}}
+var c20Hdrs = []http.Header{nil, {"Referer": {"http://a/$b?c=$d"}, "User-Agent": {"ünï/1.0 (x; y)"}}, {"X-Foo": {"a", "b"}, "User-Agent": {""}}, {"X-Foo": {}, "Referer": nil, "User-Agent": {}}}
 
 func c20Event(c c20Ev) *Event {
 	req := &http.Request{Method: "GET", RequestURI: "/a/b?x=y", Proto: "HTTP/1.1", Host: "foo.com:8080", RemoteAddr: c.remote, Header: c20Hdrs[c.hdr].Clone(),
@@ -196,7 +196,7 @@ func c20Log(format string, e *Event) (lines []string, err error, pmsg string, pa
 
 func TestVerifC20Fields(t *testing.T) {
 	L := ev.Begin("C20", "c20-fields", "exploration",
-		"every documented field alone x the event product time (8, incl. non-UTC zones, leap day, year 9999, 1ns before a second) x duration (7) x size (6) x status (10) x remote (4) x upstream address (7, with and without port, bracketed IPv6) x headers (3): exactly one line, equal to the standard-library rendering in UTC, no panic, request/response untouched. non-trivial = every (field,event) pair whose field depends on a varied attribute")
+		"every documented field alone x the event product time (8, incl. non-UTC zones, leap day, year 9999, 1ns before a second) x duration (7) x size (6) x status (10) x remote (4) x upstream address (7, with and without port, bracketed IPv6) x headers (4, incl. keys with an empty value list): exactly one line, equal to the standard-library rendering in UTC, no panic, request/response untouched. non-trivial = every (field,event) pair whose field depends on a varied attribute")
 	var names []string
 	for f := range fields {
 		names = append(names, f)
